@@ -2194,13 +2194,14 @@ func nestedUnderSeveralViews(d *spec.Design, s *spec.Service, cur *spec.Method, 
 // defect misrenders when the result type u is rendered with view: the same replay of the memo as memoHit,
 // for one top view, keeping WHERE the wrong projection lands.
 func memoAffected(d *spec.Design, u *spec.UserType, view string) []string {
-	var out []string
 	seen := map[string]bool{}
-	var walk func(u *spec.UserType, view, path string, depth int)
-	walk = func(u *spec.UserType, view, path string, depth int) {
+	inner := map[string][]string{} // (type, view) -> the paths, relative to it, that its stored projection misrenders
+	var walk func(u *spec.UserType, view string, depth int) []string
+	walk = func(u *spec.UserType, view string, depth int) []string {
+		var out []string
 		vw := gen.ViewOf(u, view)
 		if vw == nil || depth > 8 {
-			return
+			return nil
 		}
 		for _, name := range vw.Fields {
 			f := u.Attr.Type.Field(name)
@@ -2212,19 +2213,27 @@ func memoAffected(d *spec.Design, u *spec.UserType, view string) []string {
 			if own == "" {
 				own = "default"
 			}
-			p := strings.TrimPrefix(path+"."+name, ".")
 			if seen[nu.Name+"::"+view] {
 				if own != view {
-					out = append(out, p)
+					out = append(out, name)
+				} else {
+					// the stored projection is the right one, and it comes with whatever it misrenders inside
+					for _, rel := range inner[nu.Name+"::"+own] {
+						out = append(out, name+"."+rel)
+					}
 				}
 				continue
 			}
 			seen[nu.Name+"::"+own] = true
-			walk(nu, own, p, depth+1)
+			sub := walk(nu, own, depth+1)
+			inner[nu.Name+"::"+own] = sub
+			for _, rel := range sub {
+				out = append(out, name+"."+rel)
+			}
 		}
+		return out
 	}
-	walk(u, view, "", 0)
-	return out
+	return walk(u, view, 0)
 }
 
 // underAffected reports whether a complaint about path (with or without a leading "body.") concerns an
